@@ -45,6 +45,37 @@ def aligned_expr(e, aligned_vars):
     return False
 
 
+def chunk_size_rule(facts, rep):
+    # ChunkSize(n) >= n: the policy functions are evaluated (sv/minterp.py) for every policy state / request pair on a
+    # grid that contains all break points of their constants (state and request around 1 KiB, the 64 KiB cap, powers
+    # of two +-1); whatever the spelling (ternary, std::max, early returns), the chunk must cover the request
+    from ..minterp import Interp, Unsupported
+    m = 0
+    for f in facts.functions:
+        if f.short == 'ChunkSize' and 'ChunkPolicy' in (f.cls_qn or ''):
+            rep.fn(f)
+            fields = [x['name'] for c in facts.classes if c['qn'] == f.cls_qn for x in c['fields']]
+            pts = sorted(set([1, 7, 8, 9, 1000, 1023, 1024, 1025, 4096, 65535, 65536, 65537, 100000, 131072, 131073, 1 << 20, (1 << 20) + 1, 1 << 31, (1 << 32) + 5]))
+            bad = None
+            cnt = 0
+            try:
+                for st0 in pts:
+                    for need in pts:
+                        cnt += 1
+                        got, _, mem, _ = Interp(f, facts).run({f.params[0]['id']: need}, {k: st0 for k in fields})
+                        if got is None or got < need:
+                            bad = 'policy state %s=%d, request %d -> chunk of %s bytes' % ('/'.join(fields), st0, need, got)
+                            break
+                    if bad:
+                        break
+            except Unsupported as ex:
+                raise AnalysisBroken('C16.b: %s cannot be evaluated: %s' % (f.qn, ex))
+            m += 2
+            rep.check(bad is None, 'E2.chunk-size', f.qn, 'ChunkSize(n) >= n for %d (policy state, request) pairs' % cnt, f.loc,
+                      (bad or '') + ' - the new chunk must cover the request that caused it', facts.config)
+    return m
+
+
 def clause_ab(facts, rep, pol):
     n = 0
     for f in facts.functions:
@@ -168,26 +199,7 @@ def clause_ab(facts, rep, pol):
                     okm = a.get('k') == 'bin' and a['op'] == '+' and any(x.get('k') == 'ref' and x.get('dk') == 'param' for x in walk(a)) and \
                         any((cval(x) or 0) >= 24 for x in (a['l'], a['r']))
             rep.check(okm, 'E2.bump-in-chunk', f.qn, 'chunk allocation = header + capacity', f.loc, '', facts.config)
-    # ChunkSize(n) >= n  (max idiom)
-    m = 0
-    for f in facts.functions:
-        if f.short == 'ChunkSize' and 'ChunkPolicy' in (f.cls_qn or ''):
-            rep.fn(f)
-            need = f.params[0]['id']
-            for bid, i, s in f.stmts():
-                s_ = strip(s)
-                if s_.get('k') == 'ret':
-                    r = strip(s_['e'])
-                    ok = False
-                    if r.get('k') == 'cond':
-                        c = strip_expect(r['c'])
-                        a, b = strip(r['a']), strip(r['b'])
-                        if c.get('k') == 'bin' and c['op'] in ('>', '>=') and show(c['l']) == show(a) and show(c['r']) == show(b) and b.get('id') == need:
-                            ok = True
-                        if c.get('k') == 'bin' and c['op'] in ('<', '<=') and show(c['l']) == show(a) and show(c['r']) == show(b) and a.get('id') == need and False:
-                            ok = True
-                    m += 1
-                    rep.check(ok, 'E2.chunk-size', f.qn, show(s_)[:80], locline(s_['loc']), 'ChunkSize(n) must be max(policy size, n) so the request fits the new chunk', facts.config)
+    m = chunk_size_rule(facts, rep)
     rep.require(m >= 2, 'C16.b: ChunkSize returns found: %d' % m)
 
 
